@@ -27,6 +27,21 @@ example : Causal [[0, 9], [0, 10]] [] [([0, 10], none), ([0, 9], none), ([0, 10]
   simp [Causal]
 example : ∀ p ∈ [[0, 9], [0, 10]], p.dropLast ∉ [[0, 9], [0, 10]] := by decide
 
+/-- **numbering resumes after `LoopCombinator.restore`.** Restored on `(p, p.k)` (recovery re-runs instance `p` from the iteration
+    after `k`), the combinator numbers the next back-edge arrival of `p` — whatever tag `p.x` it carries — `p.(k'+1)` where
+    `k' = max(previous counter, k)`; in particular `p.(k+1)` on a fresh combinator. Other instances are not affected. -/
+theorem restore_resumes (m : Counters) (p : Tag) (k x : Nat) :
+    (number (restoreCounters m [(p, p ++ [k])]) (p ++ [x])).2 = p ++ [max ((m p).getD k) k + 1] ∧
+    (∀ q, q ≠ p → restoreCounters m [(p, p ++ [k])] q = m q) := by
+  constructor
+  · simp [number, restoreCounters, setKey, Gen.loopRestore, Gen.loopIncr]
+  · intro q hq
+    simp [restoreCounters, setKey, hq]
+
+/-- non-vacuity: resumed at iteration 10, the next iterations are 11 and 12 -/
+example : numberEvs (fun _ => none) [.restore [([0, 3], [0, 3, 10])], .arrive [0, 3, 10], .arrive [0, 3, 11]] = [[0, 3, 11], [0, 3, 12]] := by
+  decide
+
 /-- **loop output, any arrival order, any number of instances, any iteration counts.** If the step receives, in
     any order `es`, the tokens of the loop instances `insts` (distinct non-empty tags; any counts `n ≥ 0`) and then
     the port's termination token, it emits exactly one output per instance — `all`: the list `p.0 … p.(n-1)` in
